@@ -621,6 +621,7 @@ def run(tier):
                        'networkx.random_regular_graph returns a d-regular simple graph on nodes 0..v-1 (stub contract)']
     for h in HARNESSES:
         items = [(h.name, p) for p in h.points(tier)]
+        items += gen.with_networkx_inputs(items)
         part = run_shards(shard_fn, items)
         if part.counts.get('selftest_mutants', 0) and not part.counts.get('selftest_distinguished', 0):
             part.errors.append('%s: oracle self-test distinguished none of the mutants' % h.name)
